@@ -405,4 +405,19 @@ def specDoc (E : Env) (c : Nat) (dtd : List DtdDecl) (x : XNode) : ParseResult â
   | .raised => !dtd.any DtdDecl.isEntity && decide (x.tag = (E.T c).tag) && raises E c x
   | .obj o => !dtd.any DtdDecl.isEntity && decide (x.tag = (E.T c).tag) && specParse E c x o
 
+/-! ### schema-ordered documents: "children (in schema order)" against an oracle outside the class tables.
+    The harness renders a document whose root children are declared children of the class, ordered by the
+    XSD sequence of the element (read from the shipped XSD files, not from `c_child_order`); parsing it and
+    serialising the object must write the children in the same order. -/
+
+/-- observed: the root child tags of `str(cls_from_string(document))`, or `none` when something raised -/
+def specXsdOrder (x : XNode) (out : Option (List QName)) : Bool :=
+  decide (out = some (x.kids.map (Â·.tag)))
+
+/-- the model's answer -/
+def modelXsdOrder (E : Env) (c : Nat) (x : XNode) : Option (List QName) :=
+  if x.tag = (E.T c).tag && !raises E c x && classSerialisable (E.T c) then
+    some ((wire (serialise E.T (harvest E c x))).kids.map (Â·.tag))
+  else none
+
 end ObjModel
